@@ -384,10 +384,11 @@ CHECKS = {
         technique="stateful property-based testing (rapid) over one source object driven through the real Start/CoreLoop/Stop: watchdog with goroutine-dump quiescence test, goroutine census, open-descriptor scan",
         rule="rapid-generated life-cycle histories (1-3 rounds on the same object) for a scripted source on the real AnySource (ends itself with an error "
              "block or a closed channel on command; Sample or StartRun can be made to fail once), TriangleSource, SimPulseSource, ErroringSource, "
-             "AbacoSource with an endless scripted packet producer, and AbacoSource with a real UDP receiver on a loopback port that first receives "
-             "nothing (failed start) and then real packets. Operations: Start, second Start while active, 1-4 concurrent Stops with generated "
+             "AbacoSource with an endless scripted packet producer, AbacoSource with a real UDP receiver on a loopback port that first receives "
+             "nothing (failed start) and then real packets, and RoachSource with one device on a loopback port (silent at the first start, then "
+             "sending). Operations: Start, second Start while active, 1-4 concurrent Stops with generated "
              "staggering (0-3 ms), Stop issued after / at once / 0.1-2 ms after the source was told to end itself, a second Stop round on the stopped "
-             "source, queued requests, START/STOP writing, raw-data archive requests of 50 / 500 / 10^6 samples (the last never completes), channel-count "
+             "source, queued requests, START/STOP writing, raw-data archive requests of 50 / 500 / 10^6 samples (the last never completes), a write START that fails in its last step, channel-count "
              "changes between runs, for the UDP sources datagrams that are not data packets (3 bytes, text, impossible header length) sent to the "
              "receiving port of a running source; every history ends with one more Configure+Start+Stop. non-trivial = >= 2 successful Starts on the object AND a "
              "concurrent-Stop round or a Stop racing self-termination; distinct = FNV-64 of the case",
